@@ -38,6 +38,7 @@ type dworld struct {
 	offered map[string]bool
 	outcome string
 	nops    int
+	kicked  bool // a kick of the publisher has been issued
 }
 
 func dfresh() seqx.World {
@@ -88,6 +89,9 @@ func (w *dworld) Ops() []seqx.Op {
 			ops = append(ops, dop{Kind: "task", N: k})
 		}
 	}
+	if w.w.Clients[0].V.Signalled() && !w.w.Clients[0].V.Closed {
+		add("publisher-handles-one-batch")
+	}
 	add("publisher-leaves")
 	add("publisher-disconnects")
 	add("op-unpresents-publisher")
@@ -130,6 +134,12 @@ func (w *dworld) Apply(x seqx.Op) *core.Violation {
 			return nil
 		}
 		obs = w.w.RunTask(o.N)
+	case "publisher-handles-one-batch":
+		obs = w.w.Drain(0)
+		if obs.Err != "" && !w.kicked {
+			return &core.Violation{Signature: "C12/sender-closed-without-offence/signalling/delayed-delivery",
+				What: fmt.Sprintf("delayed delivery: the publisher sent only well-formed messages in states that allow them and was not kicked, yet handling its queued actions ended its loop with %q and closed its connection", obs.Err)}
+		}
 	case "publisher-leaves":
 		obs = w.w.Send(0, sig.Msg{"type": "join", "kind": "leave", "group": "g"})
 	case "publisher-disconnects":
@@ -138,6 +148,7 @@ func (w *dworld) Apply(x seqx.Op) *core.Violation {
 		obs = w.w.Send(1, sig.Msg{"type": "useraction", "kind": "unpresent", "source": "c1", "username": "alice", "dest": "c0"})
 	case "op-kicks-publisher":
 		obs = w.w.Send(1, sig.Msg{"type": "useraction", "kind": "kick", "source": "c1", "username": "alice", "dest": "c0", "value": "out"})
+		w.kicked = true
 	case "viewer-aborts-s1":
 		obs = w.w.Send(1, sig.Msg{"type": "abort", "id": "s1"})
 	case "viewer-requests-nothing":
@@ -154,9 +165,15 @@ func (w *dworld) Apply(x seqx.Op) *core.Violation {
 	if obs.Panic != "" {
 		return &core.Violation{Signature: "C12/panic/signalling/" + sig.PanicSite(obs.Panic) + "/delayed-delivery", What: "delayed delivery: " + o.String() + ": " + obs.Panic}
 	}
-	// queued actions are handled at once (the delayed goroutines are the explicit transitions)
+	// the viewers' queued actions are handled at once; the delayed goroutines
+	// and the publisher's own loop are explicit transitions
 	for n := 0; n < 200; n++ {
-		s := w.w.Signalled()
+		var s []int
+		for _, i := range w.w.Signalled() {
+			if i != 0 { // the publisher's loop is lazy (explicit transitions)
+				s = append(s, i)
+			}
+		}
 		if len(s) == 0 {
 			break
 		}
@@ -179,11 +196,11 @@ func (w *dworld) Apply(x seqx.Op) *core.Violation {
 }
 
 func (w *dworld) Canon() string {
-	return fmt.Sprint(w.w.Canon(), w.tracks, w.offered)
+	return fmt.Sprint(w.w.Canon(), w.tracks, w.offered, w.kicked)
 }
 
 func (w *dworld) Outcome() string { return w.outcome }
 
 func delayedConfig() seqx.Config {
-	return seqx.Config{Name: "signalling/delayed-delivery", Fresh: dfresh, MaxDepth: core.Pick(6, 8), Parallel: 1}
+	return seqx.Config{Name: "signalling/delayed-delivery", Fresh: dfresh, MaxDepth: core.Pick(5, 7), Parallel: 1}
 }
